@@ -72,7 +72,10 @@ def run_real(spec, params, hashes=None, chashes=None):
             for r, lst in saved:
                 r.absence_time_list = [x + 1 for x in lst] if lst else [0, 2]
         try:
-            real_simulate(project, wu, None, backward=bool(wu.get("backward")))
+            if wu.get("backward"):
+                real_simulate(project, wu, None, backward=True, considering_due_time_of_tail_tasks=bool(wu.get("due")))
+            else:
+                real_simulate(project, wu, None)
         except Exception as e:
             exc = e
         if saved is not None:
